@@ -14,8 +14,8 @@
 
 use nom::{
     branch::alt,
-    character::complete::{char, i32, multispace0},
-    combinator::map,
+    character::complete::{char, i32, multispace0, one_of},
+    combinator::{map, not},
     multi::separated_list1,
     sequence::{delimited, preceded, terminated},
     IResult,
@@ -97,7 +97,11 @@ fn key_path(input: &[u8]) -> IResult<&[u8], KeyPath<'_>> {
     alt((
         map(i32, KeyPath::Index),
         map(string, KeyPath::QuotedName),
-        map(raw_string, KeyPath::Name),
+        // a plain name does not start with a digit: an integer that does not fit an index is an error
+        map(
+            preceded(not(one_of("0123456789")), raw_string),
+            KeyPath::Name,
+        ),
     ))(input)
 }
 
